@@ -54,9 +54,9 @@ Proof.
   all: lia.
 Qed.
 
-Lemma rs_pd_spec_date a b e : date_pair a b -> 1 <= p_year a -> p_wall a < p_wall b ->
-  pd_spec a b (rs_precise_diff a b e) /\
-  pd_total_days (rs_precise_diff a b e) = rs_day_number (p_year b) (p_month b) (p_day b) - rs_day_number (p_year a) (p_month a) (p_day a).
+Lemma rs_pd_spec_date a b : date_pair a b -> 1 <= p_year a -> p_wall a < p_wall b ->
+  pd_spec a b (rs_precise_diff a b) /\
+  pd_total_days (rs_precise_diff a b) = rs_day_number (p_year b) (p_month b) (p_day b) - rs_day_number (p_year a) (p_month a) (p_day a).
 Proof.
   intros (Wa & Wb & Da & Db & Ma & Mb) Hy Hlt.
   destruct Wa as (Va & Ta & Oa). destruct Wb as (Vb & Tb & Ob).
@@ -64,7 +64,7 @@ Proof.
   pose proof (ord_le_lex a b Va Vb ltac:(lia)) as Hlex.
   assert (Hne : ~ (p_year a = p_year b /\ p_month a = p_month b /\ p_day a = p_day b)).
   { intros (E1 & E2 & E3). unfold p_date_ord in Hord. rewrite E1, E2, E3 in Hord. lia. }
-  unfold rs_precise_diff. rewrite Da, Db. cbn [andb]. unfold rs_info.
+  unfold rs_precise_diff. rewrite Da, Db. unfold rs_info.
   apply valid_dateb_true in Va, Vb.
   assert (Hyb : 1 <= p_year b) by (clear - Hlex Hy; lia).
   assert (G : rs_gtb (mkrs (p_year a) (p_month a) (p_day a) 0 0 0 0) (mkrs (p_year b) (p_month b) (p_day b) 0 0 0 0) = false).
